@@ -1,7 +1,7 @@
 (* DriverModel.v — the transcripts the correspondence check compares: for each family of driver case
    the model computes exactly the observables the C++ driver prints.  Executable; extracted. *)
 From Coq Require Import ZArith List Bool.
-From MdspanVerif Require Import MachInt ListAux Layouts Extents Convert View MdArray Submdspan SubSpec Concurrency ObjLayout Constraints.
+From MdspanVerif Require Import MachInt ListAux Layouts Extents Convert View MdArray Submdspan SubSpec Concurrency ObjLayout Constraints Deduction.
 Import ListNotations.
 Local Open Scope Z_scope.
 
@@ -426,3 +426,21 @@ Definition q_eval (cxx20 : bool) (q : query) : list Z :=
   | QIndexArr m a n => let p := x_pat (m_ext (md_map m)) in [b2z (index_array_ok p a n); b2z (index_array_ok p a n)]
   end.
 Definition q_query (q : query) : list tval := [TL (Ok (q_eval false q)); TL (Ok (q_eval true q))].
+
+(* ---- family G: deduction guides, member types, noexcept (C17) --------------------------------------- *)
+Inductive gquery :=
+| GCtad (f : ctad)                 (* descriptor of decltype(<CTAD expression>) *)
+| GDextents (t : ity) (n : nat)    (* descriptor of dextents<I, n> *)
+| GMembersExt (e : ext_t)          (* index_type, size_type, rank_type of extents<...> *)
+| GMembersMap (m : map_t)          (* ... of a mapping, then is_same flags (extents_type, layout_type) *)
+| GMembersMds (d : mds_t)          (* ... of an mdspan, then is_same flags *)
+| GNoexcept (kind : nat) (n : nat).   (* n flags, all required to be 1 *)
+Definition g_query (q : gquery) : list tval :=
+  match q with
+  | GCtad f => [TL (Ok (enc_deduced (deduce f)))]
+  | GDextents t n => [TL (Ok (0 :: enc_ext (dextents t n)))]
+  | GMembersExt e => [TL (Ok (member_ints (x_t e)))]
+  | GMembersMap m => [TL (Ok (member_ints (x_t (m_ext m)) ++ [1; 1]))]
+  | GMembersMds d => [TL (Ok (member_ints (x_t (m_ext (md_map d))) ++ [1; 1; 1; 1; 1; 1; 1; 1]))]
+  | GNoexcept _ n => [TL (Ok (repeat 1 n))]
+  end.
